@@ -1,6 +1,6 @@
 (* C02 — Refinements (metahandlers) hold on every value the library produces.
    Only statements closed by [exact]; Print Assumptions; non-vacuity example. *)
-From GE Require Import Base Tape Grammar WellTyped Synth Sat SynthFrame SynthSat MhProofs.
+From GE Require Import Base Tape Grammar WellTyped Synth Sat SynthFrame SynthSat MhProofs KnownRefuted.
 Open Scope Z_scope.
 
 (* every value create_node returns satisfies, at every refined position (top level, inside lists,
@@ -46,6 +46,11 @@ Print Assumptions C02_sat_validate.
 Theorem C02_validate_sound : forall m v, mh_validate m v = Ok true -> refined m v.
 Proof. exact validate_sound. Qed.
 Print Assumptions C02_validate_sound.
+
+(* known finding F05 as a theorem about the model: Dependent.validate raises NotImplementedError for every value *)
+Theorem C02_dependent_validate_refuted : forall names fn v, mh_validate (MDependent names fn) v = Err NotImplementedError.
+Proof. exact dependent_validate_refuted. Qed.
+Print Assumptions C02_dependent_validate_refuted.
 
 (* ---- non-vacuity: a production whose third field depends on the first two, a sized list of refined ints ---- *)
 Definition ex2 : decl :=
